@@ -60,4 +60,23 @@ const (
 	VpSfFinished              // doCall deferred section, wg released, entry removed (g.mu held)
 	VpSfPut                   // call record about to go back to the pool
 	VpSfJoinLocked            // Group.Do follower registered, g.mu still held
+	VpRbLoadBias              // RBMutex.fastRlock before the first rbias load
+	VpRbLoadSlot              // fastRlock before loading a slot counter (n[0]=slot)
+	VpRbCasSlot               // fastRlock before the CAS on the slot counter
+	VpRbRecheck               // fastRlock before the second rbias load (CAS succeeded)
+	VpRbRollback              // fastRlock before the counter roll-back
+	VpRbSlowRLock             // RLock before rw.RLock
+	VpRbTryRLock              // TryRLock before rw.TryRLock
+	VpRbSlowBias              // slow path before the rbias load (rw read-held)
+	VpRbSlowSet               // slow path before rbias := 1
+	VpRbRUnlock               // RUnlock before the release (n[0]=slot or -1)
+	VpRbLock                  // Lock before rw.Lock
+	VpRbTryLock               // TryLock before rw.TryLock
+	VpRbWBias                 // Lock/TryLock before the rbias load (rw write-held)
+	VpRbWClear                // Lock/TryLock before rbias := 0
+	VpRbWSpin                 // Lock before each load of a slot counter while waiting (n[0]=slot)
+	VpRbTryScan               // TryLock before each load of a slot counter (n[0]=slot)
+	VpRbTryBack               // TryLock before rbias := 1 (reader found)
+	VpRbTryUnlock             // TryLock before rw.Unlock of the roll-back
+	VpRbUnlock                // Unlock before rw.Unlock
 )
